@@ -29,6 +29,12 @@ Ltac break_step ST :=
          | context [match ?x with _ => _ end] => destruct x eqn:?; try discriminate ST
          | context [if ?b then _ else _] => destruct b eqn:?; try discriminate ST
          end;
+  (* a step that leaves the state alone: keep the name of the old state *)
+  try match type of ST with
+      | Some (?a, _) = Some (?b, _) =>
+          is_var a; is_var b;
+          let E := fresh "E" in assert (E : b = a) by congruence; subst b
+      end;
   inversion ST; subst; clear ST;
   repeat match goal with
          | X : (_ && _) = true |- _ => apply andb_true_iff in X; destruct X
